@@ -176,14 +176,15 @@ def make_program(kind, seed, extra=()):
             if nm not in defs["grefs"] and rng.random() < (0.3 if nm in ("p", "pp", "q") else 0.75):
                 defs["grefs"][nm] = {"v": ["int", v, [], ""]}
         if kind == "dyn":
-            # the object-valued reference of P is also defined in its child spaces
+            # the object-valued reference of P is also defined in its plain child space.
+            # (Not in the parametrised child Q: for a reference DEFINED in Q that points into P's
+            #  tree but outside Q, the live model binds P[1].Q[2].o to the STATIC target (P.C)
+            #  although P[1].Q.o is P[1].C; MxSem.DynRebind and the exported package both say
+            #  P[1].C.  That disagreement is between the model and the oracle (C10 territory),
+            #  not about export -- reported to the coordinator, not generated here.)
             refs_at = {tuple(q): rs for q, rs in defs["refs"]}
-            # (not in relative mode: a relative reference to something outside the root of a
-            #  nested ItemSpace is rejected by modelx when the instance is created)
-            if "o" in refs_at[("P",)] and refs_at[("P",)]["o"]["mode"] != "relative":
-                for q in (("P", "C"), ("P", "Q")):
-                    if q in refs_at and rng.random() < 0.7:
-                        refs_at[q]["o"] = copy.deepcopy(refs_at[("P",)]["o"])
+            if "o" in refs_at[("P",)] and ("P", "C") in refs_at and rng.random() < 0.7:
+                refs_at[("P", "C")]["o"] = copy.deepcopy(refs_at[("P",)]["o"])
     # --- restriction to the export subset (see ASSUMPTIONS in eng_export.py) ---
     for f in defs["flib"].values():
         if "pfrefs" not in extra and f.get("style") == "pf":
